@@ -3,6 +3,11 @@ package subscribe
 // Helpers shared by the subscribe harnesses (C04, C05, C06, C07, C08, C12, C14).
 
 import (
+	"context"
+	"io"
+
+	"google.golang.org/grpc"
+	"github.com/openconfig/gnmi/path"
 	zz "github.com/openconfig/gnmi/zzverif"
 
 	pb "github.com/openconfig/gnmi/proto/gnmi"
@@ -46,4 +51,134 @@ func vAgree(q, p []string) bool {
 
 func vIntVal(v int64) *pb.TypedValue {
 	return &pb.TypedValue{Value: &pb.TypedValue_IntVal{IntVal: v}}
+}
+
+// ---- in-memory Subscribe stream (shared by C04, C05, C07, C08, C12, C14) ----
+
+type vStream struct {
+	grpc.ServerStream
+	ctx    context.Context
+	h      *zz.H
+	first  *pb.SubscribeRequest
+	polls  chan bool // one token per poll trigger; closed = client half-close (EOF)
+	recvs  int
+	sent   []*pb.SubscribeResponse
+	onSend func(*pb.SubscribeResponse) error
+	block  bool // after the scripted requests Recv blocks until the context ends (STREAM clients)
+}
+
+func (s *vStream) Context() context.Context { return s.ctx }
+
+func (s *vStream) Send(r *pb.SubscribeResponse) error {
+	s.h.Assert(s.h.HeldLocks() == 0, "C08: no lock is held while a response is handed to the transport")
+	s.sent = append(s.sent, r)
+	if s.onSend != nil {
+		if err := s.onSend(r); err != nil {
+			return err
+		}
+	}
+	return nil
+}
+
+func (s *vStream) Recv() (*pb.SubscribeRequest, error) {
+	s.recvs++
+	if s.recvs == 1 {
+		return s.first, nil
+	}
+	if s.block {
+		<-s.ctx.Done()
+		return nil, s.ctx.Err()
+	}
+	if _, ok := <-s.polls; !ok {
+		return nil, io.EOF
+	}
+	return &pb.SubscribeRequest{Request: &pb.SubscribeRequest_Poll{Poll: &pb.Poll{}}}, nil
+}
+
+func vIsSync(r *pb.SubscribeResponse) bool {
+	_, ok := r.Response.(*pb.SubscribeResponse_SyncResponse)
+	return ok
+}
+
+// vLeafSpec is one stored leaf: target, index path (incl. optional origin as first element), value.
+type vLeafSpec struct {
+	target string
+	idx    []string
+	origin bool // idx[0] is an origin carried in the prefix
+	noti   *pb.Notification
+}
+
+func (l vLeafSpec) notification(ts, v int64) *pb.Notification {
+	pre := &pb.Path{Target: l.target}
+	elems := l.idx
+	if l.origin {
+		pre.Origin = l.idx[0]
+		elems = l.idx[1:]
+	}
+	var pe []*pb.PathElem
+	for _, e := range elems {
+		pe = append(pe, &pb.PathElem{Name: e})
+	}
+	return &pb.Notification{Timestamp: ts, Prefix: pre, Update: []*pb.Update{{Path: &pb.Path{Elem: pe}, Val: vIntVal(v)}}}
+}
+
+// vTreeMatch: the tree's wildcard rule (C09) — query q matches stored index path p.
+func vTreeMatch(q, p []string) bool {
+	n := len(q)
+	if n > len(p)+1 {
+		return false
+	}
+	m := n
+	if m > len(p) {
+		m = len(p)
+	}
+	ok := true
+	for i := 0; i < m; i++ {
+		ok = zz.And(ok, zz.Or(q[i] == "*", q[i] == p[i]))
+	}
+	if n == len(p)+1 {
+		ok = zz.And(ok, q[n-1] == "*")
+	}
+	return ok
+}
+
+func vSamePath(a, b []string) bool {
+	if len(a) != len(b) {
+		return false
+	}
+	ok := true
+	for i := range a {
+		ok = zz.And(ok, a[i] == b[i])
+	}
+	return ok
+}
+
+// vRespIndex: target and index path (origin first when set) of an update/delete response.
+func vRespIndex(r *pb.SubscribeResponse) (string, []string, *pb.Notification) {
+	n := r.GetUpdate()
+	if n == nil {
+		return "", nil, nil
+	}
+	idx := path.ToStrings(n.Prefix, true)
+	tgt := ""
+	if n.Prefix.GetTarget() != "" {
+		tgt = idx[0]
+		idx = idx[1:]
+	}
+	if len(n.Update) > 0 {
+		idx = append(idx, path.ToStrings(n.Update[0].Path, false)...)
+	} else if len(n.Delete) > 0 {
+		idx = append(idx, path.ToStrings(n.Delete[0], false)...)
+	}
+	return tgt, idx, n
+}
+
+// vCarries: response r carries stored leaf l (same target, index path and timestamp; a coalesced
+// response is a clone with a duplicate count, so identity of the notification is not required).
+func vCarries(r *pb.SubscribeResponse, l vLeafSpec) bool {
+	tgt, idx, n := vRespIndex(r)
+	if n == nil || len(n.Update) == 0 || tgt != l.target || len(idx) != len(l.idx) {
+		return false
+	}
+	return zz.And(vSamePath(idx, l.idx), n.Timestamp == l.noti.Timestamp)
 }
